@@ -1479,7 +1479,8 @@ class TTNS(TTNBase):
         args.append(output_indices)
         res = oe_contract(*asxp_oe_args(args))
         # to be consistent with the behavior of MPS/MPO
-        res = asnumpy(res)
+        # (a Hilbert space of dimension one contracts to a 0-d scalar)
+        res = np.asarray(res) if np.ndim(res) == 0 else asnumpy(res)
         return res
 
     def update_2site(self, node, tensor, m: Union[int, List[int]] = None, percent: float = 0, cano_parent: bool = True):
